@@ -12,7 +12,7 @@ RULE += (' AddAddress histories; transient DSA/P-256 and mismatched signers; Map
 ASSUME = [common.TRUSTED, "time-dependent expiry checks excluded as the property states", "a defect is 'documented' when Validate/ValidateStructure of the same package rejects it"]
 META = {
     "level": "model_checking",
-    "technique": "constructor/Validate/parser lifecycle as predicates of the TLA+ trace specification (J_Build.tla); TLC-computed valid and single-defect argument tuples replayed into constructors; outcomes of the three layers validated by TLC",
+    "technique": "constructor/Validate/parser lifecycle as predicates of the TLA+ trace specification (J_Build.tla); TLC-computed valid and single-defect argument tuples replayed into constructors; outcomes of the three layers validated by TLC; again-twins of every constructor vector; strings within the limit in characters but over it in bytes",
     "text": ("The three layers are exercised on the same TLC-generated tuples and their outcomes compared as implications (constructor ok => "
              "Validate ok => serialise, reparse with empty remainder, same bytes; documented defect => constructor rejects). Shape space as in "
              "C02 direction 2; the signing constructors are driven with the C06 tuples plus EncryptedLeaseSet single-defect variants. Three genuine disagreements that the pinned suite prevents repairing "
